@@ -87,4 +87,17 @@ def onceRuns (o : Nat) : List Ev → Nat
   | .onceBegin _ o' :: es => (if o' = o then 1 else 0) + onceRuns o es
   | _ :: es => onceRuns o es
 
+
+/-- number of `Done` calls on WaitGroup `w` in a trace -/
+def wgDones (w : Nat) : List Ev → Nat
+  | [] => 0
+  | .wgDone _ w' :: es => (if w = w' then 1 else 0) + wgDones w es
+  | _ :: es => wgDones w es
+
+/-- sum of the `Add` arguments on WaitGroup `w` in a trace -/
+def wgAdds (w : Nat) : List Ev → Nat
+  | [] => 0
+  | .wgAdd _ w' n :: es => (if w = w' then n else 0) + wgAdds w es
+  | _ :: es => wgAdds w es
+
 end GB.C18.HB
